@@ -185,6 +185,9 @@ fn do_compile<'a>(
     env: &'a RefCell<Environment<StdoutWrapper, StderrWrapper>>,
 ) -> bool {
     println!("Building {}", file);
+    // The values of imported files are computed afresh for every file that is built, so
+    // that what a build prints and produces does not depend on the files built before it.
+    env.borrow_mut().val_cache.clear();
     let builder = match build_file(file, false, strict, import_paths, env) {
         Ok(builder) => builder,
         Err(err) => {
